@@ -177,8 +177,13 @@ def run(run):
             if bad:
                 run.violation(bad, dict(nr=nr, nfunc=nfunc, cols=cols, got=dict(evals=(np.asarray(evals) / fk).tolist(), oord=[int(x) for x in oord],
                                                                                  nord=int(nord), npo=[int(x) for x in npo])), c)
+    from harness import protocol
+    kinds["protocol"] = protocol.check(run, ips, rng, 3000)
+    from aotools.turbulence import slopecovariance as sc_
+    kinds["covprotocol"] = protocol.check_cov(run, sc_, rng, 1200)
     run.aux["cases_by_kind"] = kinds
-    run.bounds = dict(cfg="Growth.cfg", kl_cfg="GrowthKL.cfg", klselect_cfg="KLSelect.cfg", klselect_cases_replayed=len(cases))
+    run.bounds = dict(cfg="Growth.cfg", kl_cfg="GrowthKL.cfg", klselect_cfg="KLSelect.cfg", klselect_cases_replayed=len(cases), protocol_cfg="ObjProtocol.cfg",
+                      protocol_histories_replayed=kinds["protocol"])
     run.assumptions.append("specification growth beyond the listed properties; not a claimed check")
 
 
